@@ -447,6 +447,7 @@ Theorem add_logic_spec g is_eq m ops lam m' w t :
          0 <= G x /\ (logic_holds g is_eq x ops = true -> G x == 0) /\ (logic_holds g is_eq x ops = false -> 1 <= G x).
 Proof.
   intros H Hk Hlam Hok. unfold add_logic in H.
+  destruct (ops_check ops) as [[]|]; cbn [bind] in H; [|discriminate].
   destruct (logic_poly g is_eq ops) as [[[P lo] hi]|] eqn:EP; cbn [bind] in H; [|discriminate].
   destruct (ev P) as [Pm|] eqn:EPm; cbn [bind] in H; [|discriminate].
   destruct (logic_poly_sem _ _ _ _ _ _ EP Hok) as (HL & Hlo & Hhi & HS).
